@@ -18,14 +18,14 @@ PROP = {
                   "start_merge/end_merge with delete queue, cursors, registers, target opstamp, rollback epochs): starting a merge is invisible "
                   "(C04_start_merge_transparent), a merge whose sources are gone or whose writer was rolled back is discarded without effect "
                   "(C04_end_merge_discarded), and for every queue and committed opstamp the reconciled merged entry holds exactly the documents of its "
-                  "sources advanced to that opstamp (C04_end_merge_reconciles, C04_advance_composes); a merge of committed segments, explicit or by policy, targets the last commit's opstamp and therefore neither applies nor publishes pending (uncommitted) deletes (C04_committed_merge_target, C04_committed_merge_ignores_pending). PARTIAL: the induction over whole histories "
+                  "sources advanced to that opstamp (C04_end_merge_reconciles, C04_advance_composes); a merge of committed segments, explicit or by policy, targets the last commit's opstamp and therefore neither applies nor publishes pending (uncommitted) deletes (C04_committed_merge_target, C04_committed_merge_ignores_pending); the end of a merge of uncommitted segments touches the uncommitted register only, while the end of a merge of committed segments publishes exactly the committed register (C04_end_merge_uncommitted, C04_end_merge_committed_publishes_committed_only); a merge whose merge() failed leaves no trace (C04_failed_merge_no_effect). PARTIAL: the induction over whole histories "
                   "('inserting StartMerge/EndMerge anywhere does not change what a commit publishes') is not closed as one theorem; it is covered by the "
                   "step theorems above plus gated schedules on the implementation. The posting lists of the shuffled case are tied (tie_shuffled) but have "
                   "no list-level theorem. Known finding F0401 (explicit merge of uncommitted segments with different delete cursors): witness theorem "
                   "C04_explicit_uncommitted_merge_refuted, classifier f0401_class. "
                   "Tie: translation validation of every merge the harness provokes (1-6 sources, committed and uncommitted, with/without deletes, many/few "
                   "store blocks, sorted index asc/desc with shuffled mappings): model(source dumps) = output dump and spec(source dumps) = output dump inside Coq; "
-                  "schedules with the merge thread gated at its k-th storage operation while delete+commit / rollback / delete_all / adds / GC / a second merge run, a double gate (segment_updater parked inside the commit's atomic_write(meta.json) until the merge thread has reached end_merge), rollback followed by a delete as first operation, POLICY merges of >= 2 uncommitted segments with deletes and re-adds between them, and POLICY merges of the committed segments while deletes are pending (triggered by an added segment or by the end of another merge; searcher before any commit, then rollback or commit) -- none of these in class F0401: "
+                  "schedules with the merge thread gated at its k-th storage operation while delete+commit / rollback / delete_all / adds / GC / a second merge run, a double gate (segment_updater parked inside the commit's atomic_write(meta.json) until the merge thread has reached end_merge), rollback followed by a delete as first operation, POLICY merges of >= 2 uncommitted segments with deletes and re-adds between them, and POLICY merges of the committed segments while deletes are pending (triggered by an added segment or by the end of another merge; searcher before any commit, then rollback or commit) uncommitted segments merged explicitly or by policy followed by a merge of committed segments that saves meta.json without a commit (then rollback or commit), and explicit merges hit by a Write/Flush/Terminate fault on the merged segment's .store (either an error and an intact index, or success and a complete, re-openable index) -- none of these in class F0401: "
                   "published ids = state machine = sequential replay.",
     "level_note": "Trusted: Coq kernel + vm_compute; pin.py; the harness' dump of a SegmentReader through the public API and its recovery of the "
                   "shuffled mapping from the unique id column. Not modelled: the codecs behind the dumps (C07/C08/C09/C15), TermMerger's heap (represented by "
